@@ -47,7 +47,7 @@ func init() {
 		NotDecided:  "That every failure produces an error value in the first place (e.g. a short read that happens to parse); the rules show that no code path loses an error value that exists.",
 	}
 	Props["C17"] = PropInfo{
-		Explanation: "DONE-1..3 decide, on the SSA of every b-tree iteration level and adapter, that the done flag of an inner iteration is returned as-is or leads straight to a return of true with no intervening call, that adapters return the user callback's answer, and that top-level scans return only the iteration's error; LOCK-1 shows that the unlock is deferred and so covers the early return.",
+		Explanation: "DONE-1..3 decide, on the SSA of every b-tree iteration level and adapter, that the done flag of an inner iteration is returned as-is or leads straight to a return of true with no intervening call, that adapters return the user callback's answer, and that top-level scans return only the iteration's error; LOCK-1 shows that the unlock is deferred and so covers the early return. STATELESS: the iteration methods leave no state behind (nothing is stored on pages or the handle), so a stopped scan cannot change what the next one does; PAGER/DRV-4: the lock is released when a stopped scan returns.",
 		NotDecided:  "That the traversal itself enumerates rows in the right order (C01/C02's traversal rules); nothing else data-dependent is needed.",
 	}
 }
@@ -92,17 +92,17 @@ func init() {
 func init() {
 	Props["C14"] = PropInfo{
 		Explanation: "REC-table evaluates one generic iteration of parseRecord under each serial type 0..13 (path enumeration with the type assumed) and checks guard = bytes decoded = body advance = fileformat2 §2.1 and the sign-extension width; SIGN checks the 24/48-bit readers' shifts, mask and subtrahend; VARINT extracts the loop-body table of readVarint (7 bits for bytes 1..8, 8 bits for the 9th, precedence of the 9th-byte test, count, short input); FMT-spill compares the X/M/K formulas and the three-way choice with the spec after SSA removed naming (canonical expression trees); FMT-overflow checks the overflow page layout and that whole pages are appended.",
-		NotDecided:  "That multi-page chains concatenate correctly for concrete files, and the numeric value of each decode beyond width/sign structure.",
+		NotDecided:  "That multi-page chains concatenate correctly for concrete files, and the numeric value of each decode beyond width/sign structure. For serial types ≥ 12 the length expression is evaluated for sampled N (12, 13, 14, 15, 112, 113, 65548, 65549, 2^32, 2^32+1) and compared with (N−12)/2 resp. (N−13)/2; agreement for every N is not proven.",
 	}
 }
 
 func init() {
 	Props["C04"] = PropInfo{
-		Explanation: "SRCH: the predicates handed to sort.Search in the table leaf and interior pages, evaluated over Order(cell key, rowid), give (F,T,T) on the right field (first cell with key ≥ rowid — the file format's meaning of an interior key), the match test gives (F,T,F) and always stops; TRAV: the interior descent continues with the following children and the right-most child, the leaf delivers only the first qualifying cell; VARINT: rowid varints incl. the 9-byte negative form; DONE/ERR rules via their own ids. GLUE: the wiring functions between the public API and the b-tree (which table/index name is looked up and how, which column map, rowid and callback reach toRow and the scan, how the key is converted) route exactly the confirmed values on every error-free path.",
+		Explanation: "SRCH: the predicates handed to sort.Search in the table leaf and interior pages, evaluated over Order(cell key, rowid), give (F,T,T) on the right field (first cell with key ≥ rowid — the file format's meaning of an interior key), the match test gives (F,T,F) and always stops; TRAV: the interior descent continues with the following children and the right-most child, the leaf delivers only the first qualifying cell; VARINT: rowid varints incl. the 9-byte negative form; DONE/ERR rules via their own ids. GLUE: the wiring functions between the public API and the b-tree (which table/index name is looked up and how, which column map, rowid and callback reach toRow and the scan, how the key is converted) route exactly the confirmed values on every error-free path. ROOT: the lookup starts at the page opened from the table's own root, never at a page remembered from another lookup; SRCH: `no row` is never answered without searching.",
 		NotDecided:  "That interior keys on disk are ordered (a property of the input) and concrete lookups on real trees.",
 	}
 	Props["C13"] = PropInfo{
-		Explanation: "TRAV/TRAV-flag: shape of indexLeaf.IterMin and indexInterior.IterMin (search, then tail iteration; child before the cell's own entry; first child searched, later children and the right-most scanned); SRCH: the binary-search predicate is Search(key, record of that cell), key first, with the probe error latched; CMP-search/CMP-matrix: the comparison tables; RANGE: the cut-off tables of ScanEq/ScanRange/ScanMin.",
+		Explanation: "TRAV/TRAV-flag: shape of indexLeaf.IterMin and indexInterior.IterMin (search, then tail iteration; child before the cell's own entry; first child searched, later children and the right-most scanned); SRCH: the binary-search predicate is Search(key, record of that cell), key first, with the probe error latched; CMP-search/CMP-matrix: the comparison tables; RANGE: the cut-off tables of ScanEq/ScanRange/ScanMin. ROOT: range scans start at the index's own root.",
 		NotDecided:  "That the search lands on the right cell in real trees.",
 	}
 }
